@@ -26,7 +26,10 @@ type RDir struct {
 	// filled by the renderer
 	File string
 	Line int // 1-based line of the keyword
-	ID   int
+	// BodyShift: lines between the keyword line and the first line of the body beyond the usual none (1 when the body stands
+	// in parentheses of its own)
+	BodyShift int
+	ID        int
 	// Origin: what the directive stands for (for fault injection and diagnostics)
 	Origin string
 }
@@ -35,19 +38,22 @@ func (d *RDir) add(c *RDir) *RDir { d.Children = append(d.Children, c); return c
 
 // Layout holds the independent layout choices of one rendering.
 type Layout struct {
-	Unit       string // indentation unit
-	EOL        string
-	R          *rand.Rand
-	Comments   bool // insert blank lines, # comments and ### blocks between directives
-	Trailing   bool // trailing blanks
-	QuoteAll   bool // quote every parameter that may be quoted
-	BlockAnn   bool // /* */ annotations
-	ExplicitP  int  // probability (percent) that a directive with children gets an explicit context
-	Standalone int  // probability (percent) that a path group with a single method is written as METHOD /path
-	Macros     bool
-	Includes   bool
-	FlatIndent bool // no indentation at all
-	Gaps       bool // several blanks or tabs between the tokens of a directive line and around the annotation text
+	Unit          string // indentation unit
+	EOL           string
+	R             *rand.Rand
+	Comments      bool // insert blank lines, # comments and ### blocks between directives
+	Trailing      bool // trailing blanks
+	QuoteAll      bool // quote every parameter that may be quoted
+	BlockAnn      bool // /* */ annotations
+	ExplicitP     int  // probability (percent) that a directive with children gets an explicit context
+	URLExtrasLast bool // the URL-level Tags and Path directives stand after the methods
+	ExplicitAlt   int  // 1 / 2: among the siblings that have children the even / odd ones get an explicit context
+	Standalone    int  // probability (percent) that a path group with a single method is written as METHOD /path
+	Macros        bool
+	Includes      bool
+	FlatIndent    bool // no indentation at all
+	BodyParens    bool // the body of a directive without children may stand in parentheses of its own
+	Gaps          bool // several blanks or tabs between the tokens of a directive line and around the annotation text
 }
 
 func RandomLayout(r *rand.Rand) *Layout {
@@ -61,6 +67,7 @@ func RandomLayout(r *rand.Rand) *Layout {
 	l.ExplicitP = []int{0, 30, 100, 50}[r.Intn(4)]
 	l.Standalone = []int{0, 50, 100}[r.Intn(3)]
 	l.Gaps = r.Intn(3) == 0
+	l.BodyParens = r.Intn(3) == 0
 	l.Macros = r.Intn(3) == 0
 	l.Includes = r.Intn(3) == 0
 	l.FlatIndent = r.Intn(5) == 0
@@ -282,6 +289,9 @@ func (m *Model) groupTree(g *PathGroup, l *Layout) []*RDir {
 		if l.R.Intn(3) == 0 {
 			at = l.R.Intn(len(u.Children) + 1)
 		}
+		if l.URLExtrasLast {
+			at = len(u.Children) // after the last method: what closes that method decides who gets the directive
+		}
 		kids := append([]*RDir(nil), u.Children[:at]...)
 		kids = append(kids, d)
 		u.Children = append(kids, u.Children[at:]...)
@@ -338,8 +348,8 @@ func quote(p string) string {
 // flatten assigns explicit flags so that the implicit nesting is exactly the intended tree (checked with the reference automaton).
 func decideExplicit(roots []*RDir, l *Layout, keep bool) {
 	var all []*RDir
-	var walk func(d *RDir)
-	walk = func(d *RDir) {
+	var walk func(d *RDir, nth int)
+	walk = func(d *RDir, nth int) {
 		all = append(all, d)
 		if !keep {
 			d.Explicit = false
@@ -347,12 +357,24 @@ func decideExplicit(roots []*RDir, l *Layout, keep bool) {
 		if len(d.Children) > 0 && d.Kind != "Description" && !d.Explicit && (!keep || d.Kind == "MACRO") && l.R.Intn(100) < l.ExplicitP {
 			d.Explicit = true
 		}
+		// every second sibling that has children: an implicit context followed by an explicit one, and the other way round
+		if l.ExplicitAlt != 0 && len(d.Children) > 0 && d.Kind != "Description" && !keep && nth%2 == l.ExplicitAlt-1 {
+			d.Explicit = true
+		}
+		k := 0
 		for _, c := range d.Children {
-			walk(c)
+			walk(c, k)
+			if len(c.Children) > 0 {
+				k++
+			}
 		}
 	}
+	k := 0
 	for _, d := range roots {
-		walk(d)
+		walk(d, k)
+		if len(d.Children) > 0 {
+			k++
+		}
 	}
 	for iter := 0; iter < len(all)+2; iter++ {
 		toks, owners := flattenTokens(roots)
@@ -500,10 +522,24 @@ func dirBlock(d *RDir, depth int, l *Layout) block {
 		if l.FlatIndent {
 			bind = ""
 		}
+		// empty lines and lines of blanks around a Description text are not part of it: between the keyword and the text or
+		// its opening parenthesis, after that parenthesis, before the closing one
+		blankLines := func() {
+			if d.BodyKind != "text" || l.R.Intn(4) != 0 {
+				return
+			}
+			for n := 1 + l.R.Intn(2); n > 0; n-- {
+				ln := []string{"", "   ", "\t", bind + "  ", " "}[l.R.Intn(5)]
+				b.lines = append(b.lines, ln)
+				off += len(ln) + 1
+			}
+		}
+		blankLines()
 		if d.BodyKind == "text" && l.R.Intn(3) == 0 {
 			// Description text in parentheses
 			b.lines = append(b.lines, bind+"(")
 			off += len(bind) + 2
+			blankLines()
 			start := off
 			for _, bl := range d.BodyLines {
 				ln := bind + l.Unit + bl
@@ -511,11 +547,23 @@ func dirBlock(d *RDir, depth int, l *Layout) block {
 				off += len(ln) + 1
 			}
 			_ = start
+			blankLines()
 			b.lines = append(b.lines, bind+")")
 			off += len(bind) + 2
 			// the text lexeme spans from the line after the header to the closing parenthesis: compared after trimming
 			addTok("text", len(line)+1, off-2, 1, strings.Join(d.BodyLines, "\n"))
 			return b
+		}
+		// the body of a directive may stand in parentheses of its own ("Params", "(", the schema, ")")
+		bodyParens := l.BodyParens && d.BodyKind != "text" && len(d.Children) == 0 && !d.Explicit && l.R.Intn(3) == 0
+		if bodyParens {
+			lineNo := len(b.lines)
+			b.lines = append(b.lines, bind+"(")
+			addTok("context-opening", off+len(bind), off+len(bind), lineNo, "(")
+			off += len(bind) + 2
+			if !l.FlatIndent {
+				bind += l.Unit
+			}
 		}
 		begin := off + len(bind)
 		for i, bl := range d.BodyLines {
@@ -528,7 +576,23 @@ func dirBlock(d *RDir, depth int, l *Layout) block {
 		}
 		last := b.lines[len(b.lines)-1]
 		end := off - 2 - (len(last) - len(strings.TrimRight(last, " \t")))
-		addTok(d.BodyKind, begin, end, 1, strings.Join(d.BodyLines, "\n"))
+		bodyLine := 1
+		d.BodyShift = 0
+		if bodyParens {
+			bodyLine = 2
+			d.BodyShift = 1
+		}
+		addTok(d.BodyKind, begin, end, bodyLine, strings.Join(d.BodyLines, "\n"))
+		if bodyParens {
+			cind := strings.TrimSuffix(bind, l.Unit)
+			if l.FlatIndent {
+				cind = ""
+			}
+			lineNo := len(b.lines)
+			b.lines = append(b.lines, cind+")")
+			addTok("context-closing", off+len(cind), off+len(cind), lineNo, ")")
+			off += len(cind) + 2
+		}
 	}
 	return b
 }
